@@ -27,6 +27,8 @@ use crate::world::{World, protocol_parameters};
 pub enum Ty {
     Msd,
     Cdb,
+    /// Cardano stake distribution (of the previous epoch)
+    Csd,
 }
 
 impl Ty {
@@ -34,6 +36,7 @@ impl Ty {
         match self {
             Ty::Msd => SignedEntityTypeDiscriminants::MithrilStakeDistribution,
             Ty::Cdb => SignedEntityTypeDiscriminants::CardanoDatabase,
+            Ty::Csd => SignedEntityTypeDiscriminants::CardanoStakeDistribution,
         }
     }
 }
@@ -161,6 +164,11 @@ impl Checker {
 
     /// All invariants, evaluated on the database after one event.
     pub async fn check(&mut self, w: &World, ctx: &serde_json::Value) -> Vec<Violation> {
+        self.check_since(w, ctx, None).await
+    }
+
+    /// `event_started`: when the event that was just applied began (for the expiry clause)
+    pub async fn check_since(&mut self, w: &World, ctx: &serde_json::Value, event_started: Option<chrono::DateTime<chrono::Utc>>) -> Vec<Violation> {
         let mut out = vec![];
         let new = w.observe_new_certificates().await;
         let mut all = w.all_certificates().await;
@@ -190,6 +198,24 @@ impl Checker {
             }
             self.produced += 1;
             let epoch = *c.epoch;
+            // I6: the open message had not reached its expiry date when the sealing event began
+            // (an expired open message is refused, never certified)
+            if let Some(t0) = event_started
+                && let Ok(Some(om)) = w.open_messages.get_open_message_with_single_signatures(&c.signed_entity_type()).await
+                && let Some(exp) = om.expires_at
+                && exp < t0
+            {
+                out.push(Violation {
+                    key: "C14/certificate-sealed-for-expired-open-message".into(),
+                    what: format!(
+                        "certificate {} for {:?} was sealed although its open message had expired at {exp} before the sealing cycle began at {t0} (is_expired flag: {})",
+                        c.hash,
+                        c.signed_entity_type(),
+                        om.is_expired
+                    ),
+                    replay: ctx.clone(),
+                });
+            }
             // I3: aggregate key and parameters in force for the epoch (reference offset rule)
             match w.reference_signer_builder(epoch) {
                 None => out.push(Violation {
@@ -341,6 +367,13 @@ pub async fn entity_for(w: &World, ty: Ty, variant: Variant) -> Option<SignedEnt
     let tp = w.time_point().await;
     Some(match (ty, variant) {
         (Ty::Msd, Variant::PrevBeacon) | (Ty::Msd, Variant::NextBeacon) => return None,
+        (Ty::Csd, Variant::PrevBeacon) | (Ty::Csd, Variant::NextBeacon) => return None,
+        (Ty::Csd, _) => {
+            if *tp.epoch == 0 {
+                return None;
+            }
+            SignedEntityType::CardanoStakeDistribution(Epoch(*tp.epoch - 1))
+        }
         (Ty::Msd, _) => SignedEntityType::MithrilStakeDistribution(tp.epoch),
         (Ty::Cdb, Variant::PrevBeacon) => {
             if tp.immutable_file_number == 0 {
@@ -447,7 +480,11 @@ pub async fn apply(w: &World, ev: &Ev, log: &mut Vec<String>) {
         }
         Ev::Expire(ty) => {
             let entity = w.current_entity(ty.disc()).await;
-            if let Ok(Some(mut om)) = w.open_messages.get_open_message(&entity).await {
+            // (the with-single-signatures query is the one the certifier itself uses: it looks the
+            // message up under the epoch it is signed in, which differs from the beacon epoch for
+            // CardanoStakeDistribution)
+            if let Ok(Some(om)) = w.open_messages.get_open_message_with_single_signatures(&entity).await {
+                let mut om: mithril_aggregator::database::record::OpenMessageRecord = om.into();
                 om.expires_at = Some(chrono::Utc::now() - chrono::Duration::seconds(1));
                 let _ = w.open_messages.update_open_message(&om).await;
             }
@@ -491,6 +528,14 @@ pub async fn canon(w: &World) -> String {
         .collect();
     certs.sort_by_key(|v| v["i"].as_i64());
     let mut oms = vec![];
+    if let Some(e) = entity_for(w, Ty::Csd, Variant::Current).await
+        && let Ok(Some(om)) = w.open_messages.get_open_message_with_single_signatures(&e).await
+    {
+        let mut sg: Vec<String> = om.single_signatures.iter().map(|s| s.party_id.clone()).collect();
+        sg.sort();
+        let due = om.expires_at.map(|t| t <= chrono::Utc::now()).unwrap_or(false);
+        oms.push(json!({"t": format!("{e:?}"), "c": om.is_certified, "x": om.is_expired, "due": due, "s": sg}));
+    }
     for d in [SignedEntityTypeDiscriminants::MithrilStakeDistribution, SignedEntityTypeDiscriminants::CardanoDatabase] {
         // all open messages of the type, through the public repository API: current and neighbours
         for delta in [-1i64, 0, 1] {
@@ -515,6 +560,11 @@ pub async fn canon(w: &World) -> String {
     }
     let mut entities = vec![];
     if let Ok(list) = w.deps.signed_entity_storer.get_last_signed_entities_by_type(&SignedEntityTypeDiscriminants::MithrilStakeDistribution, 1000).await {
+        for r in list {
+            entities.push(json!({"t": format!("{:?}", r.signed_entity_type), "c": idx(&r.certificate_id)}));
+        }
+    }
+    if let Ok(list) = w.deps.signed_entity_storer.get_last_signed_entities_by_type(&SignedEntityTypeDiscriminants::CardanoStakeDistribution, 1000).await {
         for r in list {
             entities.push(json!({"t": format!("{:?}", r.signed_entity_type), "c": idx(&r.certificate_id)}));
         }
@@ -599,20 +649,28 @@ pub async fn has_certificate_and_artifact(w: &World, entity: &SignedEntityType) 
 
 /// Replay one history on a fresh real aggregator; invariants are evaluated after every event.
 pub fn replay(scratch: &std::path::Path, history: &[Ev], nsigners: usize, closing_rounds: usize) -> RunResult {
+    replay_kind(scratch, history, nsigners, closing_rounds, crate::world::Kind::MsdCdb)
+}
+
+pub fn replay_kind(scratch: &std::path::Path, history: &[Ev], nsigners: usize, closing_rounds: usize, kind: crate::world::Kind) -> RunResult {
     let dir = fresh_dir(scratch);
     let rt = tokio::runtime::Builder::new_current_thread().enable_all().build().expect("tokio runtime");
     let hist_json = serde_json::to_value(history).unwrap();
     let res = rt.block_on(async {
-        let mut w = World::new(dir.clone(), nsigners, false).await;
+        let mut w = World::new_kind(dir.clone(), nsigners, kind).await;
         let mut chk = Checker::new();
         let mut log = vec![];
         let mut violations = vec![];
         // the genesis certificate itself
-        violations.extend(chk.check(&w, &json!({"history": hist_json, "failing_step": -1})).await);
+        violations.extend(chk.check(&w, &json!({"history": hist_json, "kind": kind, "failing_step": -1})).await);
         for (i, ev) in history.iter().enumerate() {
+            let t0 = chrono::Utc::now();
             apply_mut(&mut w, ev, &mut log).await;
-            let ctx = json!({"history": hist_json, "failing_step": i, "event": ev, "log": log});
-            violations.extend(chk.check(&w, &ctx).await);
+            let ctx = json!({"history": hist_json, "kind": kind, "failing_step": i, "event": ev, "log": log});
+            violations.extend(chk.check_since(&w, &ctx, Some(t0)).await);
+            if std::env::var_os("VERIF_TRACE").is_some() {
+                eprintln!("[trace] {i} {ev:?} -> {} log={:?}", canon(&w).await, log.last());
+            }
         }
         let canon = canon(&w).await;
         let produced = chk.produced;
@@ -620,12 +678,14 @@ pub fn replay(scratch: &std::path::Path, history: &[Ev], nsigners: usize, closin
         // fair closing environment: whatever the explored history left behind, honest signers keep
         // resubmitting and the machine keeps cycling; the invariants must keep holding (this is what
         // exposes latent damage, e.g. an entity that can be certified a second time)
-        let round = [Ev::Tick, Ev::SigAll(Ty::Msd), Ev::SigAll(Ty::Cdb), Ev::Tick, Ev::Quiesce];
+        let second = if kind == crate::world::Kind::MsdCsd { Ty::Csd } else { Ty::Cdb };
+        let round = [Ev::Tick, Ev::SigAll(Ty::Msd), Ev::SigAll(second), Ev::Tick, Ev::Quiesce];
         for r in 0..closing_rounds {
             for ev in &round {
+                let t0 = chrono::Utc::now();
                 apply_mut(&mut w, ev, &mut log).await;
-                let ctx = json!({"history": hist_json, "failing_step": format!("closing round {r}"), "event": ev, "log": log});
-                violations.extend(chk.check(&w, &ctx).await);
+                let ctx = json!({"history": hist_json, "kind": kind, "failing_step": format!("closing round {r}"), "event": ev, "log": log});
+                violations.extend(chk.check_since(&w, &ctx, Some(t0)).await);
             }
         }
         RunResult {
